@@ -277,6 +277,10 @@ func keysFromMessage(val reflect.Value, path []string, start int) ([]string, err
 	return keys, nil
 }
 
+// maxLocatorSegments bounds the depth of an affinity key locator. It is the nesting depth up to
+// which protobuf-go decodes messages by default, so no message received from the wire is deeper.
+const maxLocatorSegments = 10000
+
 // getAffinityKeysFromMessage retrieves the affinity key(s) from proto message using
 // the key locator defined in the affinity config.
 func getAffinityKeysFromMessage(
@@ -286,6 +290,11 @@ func getAffinityKeysFromMessage(
 	names := strings.Split(locator, ".")
 	if len(names) == 0 {
 		return nil, fmt.Errorf("empty affinityKey locator")
+	}
+	if len(names) > maxLocatorSegments {
+		// The walk recurses once per segment, and a message may refer to itself: without a bound a
+		// huge locator overflows the stack, which cannot even be recovered from.
+		return nil, fmt.Errorf("affinityKey locator has %d segments, at most %d are supported", len(names), maxLocatorSegments)
 	}
 
 	return keysFromMessage(reflect.ValueOf(msg), names, 0)
